@@ -82,7 +82,7 @@ func readVarint(b []byte) (v, n int, ok bool) {
 		n++
 		v |= int(c&0x7F) << sh
 		if c&0x80 == 0 {
-			return v, n, true
+			return int(int32(uint32(v))), n, true // a VarInt is a signed 32-bit number
 		}
 	}
 	return 0, 0, false
@@ -222,6 +222,8 @@ type hsSpec struct {
 	Next      int
 	PadFields bool
 	PadLen    bool
+	PadTo     int  // "{PAD}" in Suffix becomes as many 'x' as make the whole server address this many bytes long
+	Few       bool // added by the quantifier audit: combined with 3 stream pairs instead of all
 }
 
 type c31Case struct {
@@ -333,12 +335,21 @@ func handshakes(thorough bool) []hsSpec {
 		{Name: "transfer-intent", Proto: 766, Port: 0, Next: 3},
 		{Name: "padded-fields", Proto: 765, Port: 25565, Next: 2, PadFields: true},
 		{Name: "forge-token-spells-host", Suffix: "\x00{HOST}\x00", Proto: 765, Port: 25565, Next: 2},
+		// sizes: the address length prefix is one byte up to 127 and two bytes from 128 on; a rewrite can move the
+		// address (and the frame) across that boundary in either direction; 5000 is more than the proxy's read buffer
+		{Name: "addr-127-bytes", Suffix: "\x00{PAD}\x00", PadTo: 127, Proto: 765, Port: 25565, Next: 2, Few: true},
+		{Name: "addr-128-bytes", Suffix: "\x00{PAD}\x00", PadTo: 128, Proto: 765, Port: 25565, Next: 2, Few: true},
+		{Name: "addr-120-bytes-tcpshield", Suffix: "///203.0.113.9:54321///1700000000\x00{PAD}\x00", PadTo: 120, Proto: 765, Port: 25565, Next: 2, Few: true},
+		{Name: "addr-5000-bytes", Suffix: "\x00{PAD}\x00", PadTo: 5000, Proto: 765, Port: 25565, Next: 2, Few: true},
+		// protocol numbers the proxy knows nothing about
+		{Name: "negative-protocol", Proto: -1, Port: 25565, Next: 2, Few: true},
+		{Name: "future-protocol", Proto: 0x7fffffff, Port: 25565, Next: 2, Few: true},
 	}
 	if thorough {
 		h = append(h,
 			hsSpec{Name: "leading-dot", Prefix: ".", Proto: 765, Port: 25565, Next: 2},
 			hsSpec{Name: "padded-frame-length", Proto: 765, Port: 25565, Next: 2, PadLen: true},
-			hsSpec{Name: "future-protocol", Proto: 0x7fffffff, Port: 25565, Next: 2},
+			hsSpec{Name: "addr-262144-bytes", Suffix: "\x00{PAD}\x00", PadTo: 262144, Proto: 765, Port: 25565, Next: 2, Few: true}, // the decoder's limit
 		)
 	}
 	return h
@@ -843,6 +854,9 @@ func buildHS(hs hsSpec, routeHost string) (host string, wire, canon []byte) {
 		h = strings.ToUpper(h)
 	}
 	host = hs.Prefix + h + strings.ReplaceAll(hs.Suffix, "{HOST}", h)
+	if hs.PadTo > 0 {
+		host = strings.ReplaceAll(host, "{PAD}", strings.Repeat("x", max(0, hs.PadTo-(len(host)-len("{PAD}")))))
+	}
 	pl := hsPayload(hs.Proto, host, hs.Port, hs.Next, hs.PadFields)
 	return host, frame(pl, hs.PadLen), frame(pl, false)
 }
@@ -934,7 +948,10 @@ func TestVerif(t *testing.T) {
 	all:
 		for opt := 0; opt <= 16; opt++ {
 			for _, hs := range hss {
-				for _, p := range pairs {
+				for pi, p := range pairs {
+					if hs.Few && !r.Thorough() && pi != 0 && !(p.c == "40KiB" && p.b == "40KiB") && !(p.c == "empty" && p.b == "empty") {
+						continue
+					}
 					for _, same := range []bool{false, true} {
 						i++
 						if !r.Mine(i) {
@@ -1060,7 +1077,7 @@ func TestVerif(t *testing.T) {
 									break variants
 								}
 							}
-							if hs.Next == 2 && !hs.PadFields && !hs.PadLen && hs.Proto != 0x7fffffff {
+							if hs.Next == 2 && !hs.PadFields && !hs.PadLen && hs.Proto > 0 && hs.Proto != 0x7fffffff {
 								c.Client, c.Backend, c.Status = "status-request", "status-response", true
 								if !runV(c, hs.Name) {
 									break variants
